@@ -258,22 +258,26 @@ theorem frameOffsets_ok (f : FrameIn) (h : FrameInv f) : NoPanic (frameOffsets f
     `print_json` — `base + size` (JSON `end_addr`), `base + size - 1` (text), `instruction - module
     base`, `instruction - function_base`, `instruction - source_line_base` — has no panic outcome. -/
 theorem render_total (r : RenderIn)
-    (hm : ∀ m ∈ r.mods, readerKeeps m = true) (hu : ∀ m ∈ r.unl, readerKeeps m = true)
+    (hm : ∀ m ∈ r.mods, readerKeeps m = true) (hmt : ∀ m ∈ r.modsText, readerKeeps m = true)
+    (hu : ∀ m ∈ r.unl, readerKeeps m = true) (hut : ∀ m ∈ r.unlText, readerKeeps m = true)
     (hf : ∀ f ∈ r.frames, FrameInv f) : NoPanic (render r) := by
-  obtain ⟨a, ha⟩ := mapO_ok modEnds r.mods (fun m h => modEnds_ok m (hm m h))
-  obtain ⟨b, hb⟩ := mapO_ok modEnds r.unl (fun m h => modEnds_ok m (hu m h))
+  obtain ⟨a, ha⟩ := mapO_ok jsonEnd r.mods (fun m h => jsonEnd_ok m (hm m h))
+  obtain ⟨a', ha'⟩ := mapO_ok textEnd r.modsText (fun m h => textEnd_ok m (hmt m h))
+  obtain ⟨b, hb⟩ := mapO_ok jsonEnd r.unl (fun m h => jsonEnd_ok m (hu m h))
+  obtain ⟨b', hb'⟩ := mapO_ok textEnd r.unlText (fun m h => textEnd_ok m (hut m h))
   obtain ⟨c, hc⟩ := mapO_ok frameOffsets r.frames (fun f h => frameOffsets_ok f (hf f h))
   unfold render
-  rw [ha, bind_ok, hb, bind_ok, hc, bind_ok]
+  rw [ha, bind_ok, ha', bind_ok, hb, bind_ok, hb', bind_ok, hc, bind_ok]
   exact ⟨_, rfl⟩
 
 /-- a non-trivial state: a module ending exactly at 2^64-1 and a frame at its last byte -/
-example : ∃ o, render ⟨[⟨2^64 - 4096, 4095⟩], [⟨4096, 1⟩],
+example : ∃ o, render ⟨[⟨2^64 - 4096, 4095⟩], [⟨2^64 - 4096, 4095⟩], [⟨4096, 1⟩], [⟨4096, 1⟩],
     [⟨2^64 - 2, some (2^64 - 4096), some (2^64 - 100), some (2^64 - 2)⟩]⟩ = .ok o ∧
-    o.modEnds = [(2^64 - 1, 2^64 - 2)] ∧ o.frames = [(some 4094, some 98, some 0)] := by
-  refine ⟨_, rfl, ?_, ?_⟩ <;> decide
+    o.modEnds = [2^64 - 1] ∧ o.modTextEnds = [2^64 - 2] ∧ o.unlTextEnds = [4096] ∧
+    o.frames = [(some 4094, some 98, some 0)] := by
+  refine ⟨_, rfl, ?_, ?_, ?_, ?_⟩ <;> decide
 /-- the reader invariant is needed: a module the readers would have dropped overflows `end_addr` -/
-example : render ⟨[⟨2^64 - 1, 1⟩], [], []⟩ =
+example : render ⟨[⟨2^64 - 1, 1⟩], [], [], [], []⟩ =
     .panic "print_json: base_of_image + size_of_image" := by rfl
 example : readerKeeps ⟨2^64 - 1, 1⟩ = false ∧ readerKeeps ⟨5, 0⟩ = false ∧ readerKeeps ⟨2^64 - 2, 1⟩ = true := by decide
 
